@@ -879,6 +879,23 @@ def run(ctx):
                   msg='sdss_objid: %s: an int16/int32 array (as read from a FITS table) is shifted by %d in its own width, the high bits are lost '
                       'and the array call disagrees with the scalar call' % (why, k), construct='narrow shift: %s << %d' % (field, k))
 
+    # C06.WIDE (specObjID): an offset applied to the caller's own array is computed in that array's type: `mjd - 50000` on an unsigned
+    # 16-bit column wraps an out-of-range MJD back into range before the range check sees it
+    for st in walk_local(f_spec.node):
+        if isinstance(st, ast.Assign) and isinstance(st.value, ast.BinOp) and isinstance(st.value.op, (ast.Add, ast.Sub)):
+            c_ = try_fold(st.value.right)
+            opd = st.value.left
+            if not isinstance(c_, int) or c_ == 0:
+                continue
+            raw = isinstance(opd, ast.Name) and opd.id in f_spec.params and any(isinstance(d, ast.arg) for d, _ in fa_spec.defs(opd))
+            boxed = isinstance(opd, ast.Call) and call_name(opd) in ('array', 'asarray') and opd.args and isinstance(opd.args[0], ast.List)
+            if not (raw or boxed or is_64(opd)):
+                continue
+            ctx.check('C06.WIDE', not raw, f_spec, st, 'specObjID: the offset `%s` is applied to a 64-bit value (%s)' % (src(st.value), 'boxed Python int' if boxed else 'explicit cast'),
+                      msg='sdss_specobjid computes `%s` in the dtype of the caller\'s array: for an unsigned 16-bit MJD column a value below %d wraps around '
+                          'and can pass the range check, so an out-of-range MJD is packed instead of rejected' % (src(st.value), abs(c_)),
+                      construct='narrow offset: ' + src(st.value))
+
     # C06.CAST
     for field, k, operand, base, os_ in packed:
         ctx.check('C06.CAST', is_uint64_cast(operand), fa_spec.func, operand,
